@@ -106,6 +106,25 @@ def main(ctx, replay=None):
         if again != got:
             ctx.violation(f"update_config is not idempotent on ({u0}, {d0}): {again!r}", {"u": u0, "d": d0}, {**sig, "clause": "idempotent"})
     ctx.sample({"u": to_py(pairs[777]["u"]), "d": to_py(pairs[777]["d"]), "merge": to_py(pairs[777]["m"])})
+    # the same table one and two levels further down (NestLaw: the merge commutes with nesting), next to a sibling only the defaults have
+    for n, row in enumerate(pairs):
+        if n % 5:
+            continue
+        u, d, m = to_py(row["u"]), to_py(row["d"]), to_py(row["m"])
+        for depth in (1, 2):
+            wrap = (lambda t, extra: {"s": t, **extra}) if depth == 1 else (lambda t, extra: {"e": {"s": t, **extra}})
+            uu, dd, mm = wrap(u, {}), wrap(d, {"other": 7}), wrap(m, {"other": 7})
+            ctx.count({"u": uu, "d": dd})
+            try:
+                got = update_config(copy.deepcopy(uu), copy.deepcopy(dd))
+            except Exception as ex:
+                ctx.violation(f"update_config({uu}, {dd}) raised {ex!r}; specification gives {mm}", {"u": uu, "d": dd, "expected": mm},
+                              {"fn": "update_config", "clause": "raises", "exc": type(ex).__name__, "shape": "nested"})
+                break
+            if got != mm:
+                ctx.violation(f"update_config({uu}, {dd}) = {got}, specification gives {mm} (merge below depth two)", {"u": uu, "d": dd, "got": got, "expected": mm},
+                              {"fn": "update_config", "clause": "value", "shape": "nested"})
+                break
 
     # ---- apply_default_config against the live packaged defaults -------------------------------------------
     with open(cij.data.get_data_fname("default/settings.yaml")) as fp:
@@ -116,7 +135,9 @@ def main(ctx, replay=None):
             users.append(yaml.safe_load(fp))
     users += [{"qha": {"input": "x", "settings": {"NT": 3}}, "elast": {"input": "y"}},
               {"qha": {"settings": {"T_MIN": 300}}, "elast": {"settings": {"symmetry": {"system": "cubic"}}}, "output": {"pressure_base": ["cij"]}},
-              {"qha": {}, "elast": {}}]
+              {"qha": {}, "elast": {}},
+              {"qha": {"input": "x"}, "elast": {"input": "y", "settings": {"mode_gamma": {"interpolator": "spline"}}}},
+              {"qha": {"input": "x"}, "elast": {"input": "y", "settings": {"mode_gamma": {"order": 4}}}}]
     for uc in users:
         u0 = copy.deepcopy(uc)
         ctx.count({"apply_default": uc})
